@@ -211,3 +211,239 @@ vharness! {
         })
     }
 }
+
+
+// =============================================================================================
+// call_service: slot allocation, inline fast path, spawned completions (C04)
+use std::task::{Context, Poll};
+use std::rc::Rc;
+
+/// handler completions are decided by the harness: request i completes when `done[i]` is filled
+struct Gate {
+    done: [Cell<Option<Res>>; 3],
+}
+struct GSvc(Rc<Gate>);
+impl Service<u8> for GSvc {
+    type Response = Option<u8>;
+    type Error = DispatcherError<()>;
+    async fn call(&self, req: u8, _ctx: ServiceCtx<'_, Self>) -> Result<Option<u8>, DispatcherError<()>> {
+        let g = self.0.clone();
+        std::future::poll_fn(move |_cx| match g.done[req as usize].take() {
+            Some(r) => Poll::Ready(r),
+            None => Poll::Pending,
+        })
+        .await
+    }
+    /// the same completion rule for the model PipelineCall (Kani flavour only: the model of the
+    /// Service trait has this extra method, the real trait does not)
+    #[cfg(kani)]
+    fn model_poll(&self, req: &u8) -> Poll<Result<Option<u8>, DispatcherError<()>>> {
+        match self.0.done[*req as usize].take() {
+            Some(r) => Poll::Ready(r),
+            None => Poll::Pending,
+        }
+    }
+}
+#[cfg(not(kani))]
+struct TCtl;
+#[cfg(not(kani))]
+impl Service<crate::control::Control<()>> for TCtl {
+    type Response = Option<u8>;
+    type Error = ();
+    async fn call(&self, _req: crate::control::Control<()>, _ctx: ServiceCtx<'_, Self>) -> Result<Option<u8>, ()> {
+        Ok(None)
+    }
+}
+#[cfg(kani)]
+type Inner = DispatcherInner<GSvc, (), TCodec, ()>;
+#[cfg(kani)]
+fn mk_inner(io: &vio::IoH, svc: GSvc) -> Inner {
+    DispatcherInner {
+        io: io.take_boxed(),
+        codec: TCodec,
+        service: ntex_service::PipelineBinding::model_new(svc),
+        state: Rc::new(DispatcherState {
+            error: Cell::new(None),
+            base: Cell::new(0),
+            queue: RefCell::new(VecDeque::new()),
+            waker: LocalWaker::new(),
+            response: Cell::new(None),
+            response_idx: Cell::new(0),
+        }),
+        stopping: ntex_util::channel::condition::Condition::new(),
+        _marker: std::marker::PhantomData,
+    }
+}
+#[cfg(not(kani))]
+type Inner = DispatcherInner<GSvc, TCtl, TCodec, ()>;
+#[cfg(not(kani))]
+fn mk_inner(io: &vio::IoH, svc: GSvc) -> Inner {
+    Dispatcher::new(io.take_boxed(), TCodec, svc, TCtl).inner
+}
+/// the "handle service response future" block at the top of `Dispatcher::poll` (not an item of its
+/// own in io.rs, so it cannot be extracted): poll the inline call, hand its result to handle_result
+fn poll_inline(inner: &mut Inner, ioref: &vio::IoRef) {
+    let mut cx = vio::noop_cx();
+    if let Some(mut fut) = inner.state.response.take() {
+        if let Poll::Ready(item) = std::pin::Pin::new(&mut fut).poll(&mut cx) {
+            inner.state.handle_result(item, inner.state.response_idx.get(), ioref, &inner.codec);
+        } else {
+            inner.state.response.set(Some(fut));
+        }
+    }
+}
+
+/// ONE `call_service` call from an arbitrary dispatcher state with `n` (literal) response slots
+fn call_step(n: usize) {
+    let mut ran = false;
+    vio::with_io_steps(if vk::REPLAY { 2 } else { 1 }, move |io, step| {
+        if step == 1 {
+            // the second step only lets the executor run once more; all checks are in step 0
+            assert!(ran);
+            return;
+        }
+        ran = true;
+        let gate = Rc::new(Gate { done: [const { Cell::new(None) }; 3] });
+        let mut inner = mk_inner(io, GSvc(gate.clone()));
+        let ioref = io.ioref();
+        let base = vk::any_usize();
+        inner.state.base.set(base);
+        // pre-state: slots pending or parked; optionally the inline call (request 0, still running)
+        // owns one of the pending slots
+        let mut desc: [Option<u8>; NQ] = [None; NQ];
+        let mut i = 0;
+        while i < n {
+            if vk::any_bool() {
+                let (code, r) = any_res();
+                vk::assume(code != 0);
+                desc[i] = Some(code);
+                inner.state.queue.borrow_mut().push_back(ServiceResult::Ready(r));
+            } else {
+                inner.state.queue.borrow_mut().push_back(ServiceResult::Pending);
+            }
+            i += 1;
+        }
+        let inline_busy = n > 0 && vk::any_bool();
+        if inline_busy {
+            let p = vk::any_len(n - 1);
+            vk::assume(desc[p].is_none());
+            inner.state.response.set(Some(inner.service.call_nowait(0)));
+            inner.state.response_idx.set(base.wrapping_add(p));
+        }
+        // the new request (number 1): its handler completes before call_service polls it, or later
+        let immediate = vk::any_bool();
+        let has = vk::any_bool();
+        let res: Res = if has { Ok(Some(7)) } else { Ok(None) };
+        if immediate {
+            gate.done[1].set(Some(res));
+        }
+        let mut cx = vio::noop_cx();
+        inner.call_service(&mut cx, 1);
+
+        // ---- what call_service itself must have done
+        let direct = !inline_busy && immediate && n == 0;
+        {
+            let q = inner.state.queue.borrow();
+            if direct {
+                // the only response owed: written at once, no slot
+                assert!(q.len() == 0);
+                assert!(io.frames() == if has { 1 } else { 0 });
+                if has {
+                    assert!(io.frame_first(0) == 7 << 4);
+                }
+            } else {
+                // every other case takes the NEXT slot, behind all requests that arrived earlier,
+                // and writes nothing yet
+                assert!(io.frames() == 0, "response written ahead of earlier requests that are still unanswered");
+                assert!(q.len() == n + 1, "the request did not take exactly one new slot at the back");
+                match q.get(n) {
+                    Some(ServiceResult::Ready(Ok(r))) => {
+                        assert!(!inline_busy && immediate, "slot filled although the handler has not finished");
+                        assert!(*r == if has { Some(7) } else { None });
+                    }
+                    Some(ServiceResult::Pending) => assert!(inline_busy || !immediate),
+                    _ => assert!(false),
+                }
+            }
+            assert!(inner.state.base.get() == base);
+            // earlier slots untouched
+            let mut j = 0;
+            while j < n {
+                match desc[j] {
+                    None => assert!(matches!(q.get(j), Some(ServiceResult::Pending))),
+                    Some(c) => assert!(matches!(q.get(j), Some(ServiceResult::Ready(Ok(r))) if *r == if c >= 2 { Some(c - 2) } else { None })),
+                }
+                j += 1;
+            }
+        }
+        if !inline_busy && !immediate {
+            // became the inline call, owning the new slot
+            assert!(inner.state.response_idx.get() == base.wrapping_add(n), "inline call numbered with a slot that is not its own");
+        }
+        // ---- the handler finishes later: its result must arrive in ITS OWN slot
+        if !immediate {
+            gate.done[1].set(Some(res_copy(has)));
+            if inline_busy {
+                // spawned task: runs when the executor polls it
+                ntex_util_run();
+            } else {
+                poll_inline(&mut inner, &ioref);
+            }
+            let q = inner.state.queue.borrow();
+            if n == 0 {
+                // it is the oldest: written now, slot released
+                assert!(q.len() == 0 && inner.state.base.get() == base.wrapping_add(1));
+                assert!(io.frames() == if has { 1 } else { 0 });
+            } else {
+                assert!(io.frames() == 0);
+                assert!(q.len() == n + 1);
+                assert!(matches!(q.get(n), Some(ServiceResult::Ready(Ok(r))) if *r == if has { Some(7) } else { None }),
+                    "a late completion did not land in its own slot");
+                let mut j = 0;
+                while j < n {
+                    if desc[j].is_none() {
+                        assert!(matches!(q.get(j), Some(ServiceResult::Pending)), "a late completion overwrote the slot of another request");
+                    }
+                    j += 1;
+                }
+            }
+        }
+        vcover!(n == 0 || (inline_busy && !immediate), "spawned, completes later");
+        vcover!(n == 0 || (!inline_busy && immediate), "immediate behind unanswered requests: parked");
+        vcover!(!inline_busy && !immediate, "becomes the inline call");
+        std::mem::forget(inner);
+    })
+}
+fn res_copy(has: bool) -> Res {
+    if has { Ok(Some(7)) } else { Ok(None) }
+}
+/// let the executor poll the spawned tasks now (Kani: model task table; replay: nothing to do here -
+/// the real runtime polls them between the steps, so the late-completion checks of a spawned call are
+/// made by the Kani flavour only)
+#[cfg(kani)]
+fn ntex_util_run() {
+    ntex_util::model_run_spawned();
+}
+#[cfg(not(kani))]
+fn ntex_util_run() {
+    crate::vk::assume(false);
+}
+macro_rules! call_step_inst {
+    ($name:ident, $n:expr) => {
+        vharness! {
+            //@ props: C04
+            //@ tier: quick
+            //@ functions: io::DispatcherInner::call_service and io::DispatcherState::handle_result (both extracted verbatim from src/io.rs), the inline-response block of Dispatcher::poll (re-stated in the harness); ntex-service PipelineBinding::call_nowait, ntex_util spawn / select / Condition (models)
+            //@ bounds: ONE call_service call from an ARBITRARY dispatcher state: literal number of response slots per instance (0..=2), each pending or parked with any result; slot numbering base usize full width; the inline call busy (owning any pending slot) or free; the new handler completing immediately or later, with or without a response
+            //@ assumes: queue invariant (slot i answers request base+i; the inline call owns a pending slot); handlers do not fail here (failures: io_handle_*)
+            //@ mem: 24  timeout: 1500
+            //@ desc: slot allocation step: a response is written directly only when nothing older is owed; otherwise the request takes exactly one new slot BEHIND every earlier request (parked at once if its handler already finished), earlier slots are untouched, and a handler finishing later - through the spawned task or the inline poll - delivers into its own slot. Together with io_handle_* (delivery from any slot) this is the induction step of "responses leave in request order" for histories of any length.
+            fn $name() unwind(6) {
+                call_step($n)
+            }
+        }
+    };
+}
+call_step_inst!(io_call_step_n0, 0);
+call_step_inst!(io_call_step_n1, 1);
+call_step_inst!(io_call_step_n2, 2);
